@@ -353,8 +353,14 @@ def mutants(prog):
     sub(DEF, "bad packet filter breaks the loop", r"(Skipping \(not yielding\) bad packet with apid \{raw_packet_data\.apid\}\.\"\)\n\s+)continue",
         r"\1break", "R11.4")
     sub(DEF, "errors always yielded", r"if yield_unrecognized_packet_errors:\n", "if True:\n", "R11.4")
-    sub(DEF, "packet object hoisted out of the loop", r"(        _segmented_packets = \{\}\n)",
-        r"\1        shared_packet = packets.CCSDSPacket()\n", "R11")
+    # one packet object shared by all iterations (an unused hoisted object alone is harmless and is not a variant)
+    import re as _re
+    src0 = prog.files[DEF]
+    v = _re.sub(r"(        _segmented_packets = \{\}\n)", r"\1        shared_packet = packets.CCSDSPacket()\n", src0, count=1)
+    v2 = _re.sub(r"( +)packet = packets\.CCSDSPacket\(raw_data=raw_packet_data\)\n",
+                 r"\1shared_packet.raw_data = packets.CCSDSPacket(raw_data=raw_packet_data).raw_data\n\1packet = shared_packet\n", v, count=1)
+    if v2 != v and v != src0:
+        out.append(("packet object shared between iterations", DEF, v2, "R11"))
     return out
 
 
